@@ -23,7 +23,9 @@
 (*   "thunk"    deferred value    "thunkerr" deferred error                *)
 (*   "badthunk" a func of the wrong signature                              *)
 (*   "wrong"    a value of the wrong Go kind for the position              *)
-(*   "typednil" typed nil pointer "nan" NaN                                *)
+(*   "typednil" typed nil pointer "nan" NaN   "big" an Int out of range    *)
+(*   "badenum"  an internal value no enum value has                        *)
+(*   "nilitem"  the natural list with its second element nil               *)
 (*   rt |-> runtime type name for abstract positions ("" = unresolvable),  *)
 (*   rts |-> <<...>> per list element, len |-> list length                 *)
 (***************************************************************************)
@@ -97,9 +99,13 @@ MergedSels(g) == [i \in 1..Len(g.occs) |-> g.occs[i].sel]
 
 \* --------------------------------------------------------------- outcomes
 DefaultOutcome == [k |-> "val"]
-Outcome(E, tn, fn) ==
-  LET ix == { i \in 1..Len(E.outs) : E.outs[i].t = tn /\ E.outs[i].f = fn }
-  IN IF ix = {} THEN DefaultOutcome ELSE E.outs[CHOOSE i \in ix : TRUE].o
+\* entries [t, f, src, o]; src = "*" matches every source, otherwise the source tag;
+\* the first matching entry wins
+Outcome(E, tn, fn, tag) ==
+  LET ix == { i \in 1..Len(E.outs) : E.outs[i].t = tn /\ E.outs[i].f = fn
+                                      /\ (E.outs[i].src = "*" \/ E.outs[i].src = tag) }
+  IN IF ix = {} THEN DefaultOutcome
+     ELSE E.outs[CHOOSE i \in ix : \A j \in ix : i <= j].o
 
 OcLen(oc) == IF "len" \in DOMAIN oc THEN oc.len ELSE 2
 OcRt(S, oc, tn, i) ==      \* runtime type of the i-th (0 = scalar position) value
@@ -155,14 +161,24 @@ SerializeLeaf(S, tn, rv) ==
 \*   calls sequence of resolver invocations
 \*   errd  TRUE iff val is null because of an error already recorded
 \*   bub   TRUE iff val is null at a non-null position (parent must be nulled)
-R0 == [val |-> NullV, errs |-> <<>>, opt |-> <<>>, calls |-> <<>>, errd |-> FALSE, bub |-> FALSE]
-Fail(path, nn) == [R0 EXCEPT !.errs = <<path>>, !.errd = TRUE, !.bub = nn]
+\*   tcalls sequence of type-resolver invocations [p, v]: the info path of the
+\*          field being completed (list indices are not part of it) and the value's tag
+\*   esc   error paths of failures that nulled a non-null field whose value was DEFERRED
+\*         (a thunk); plain bookkeeping in the specification, used only by the deviation
+\*         D_C04_deferred_nonnull_nulls_data
+\*   all   every error that some legal execution order can raise: the errors of a
+\*         non-aborting execution of the same selection (siblings of a failed non-null
+\*         field are still run).  errs is the sub-sequence raised by the sequential order.
+R0 == [val |-> NullV, errs |-> <<>>, opt |-> <<>>, calls |-> <<>>, tcalls |-> <<>>, esc |-> <<>>,
+       all |-> <<>>, errd |-> FALSE, bub |-> FALSE]
+Fail(path, nn) == [R0 EXCEPT !.errs = <<path>>, !.all = <<path>>, !.errd = TRUE, !.bub = nn]
 
 RECURSIVE ExecGroups(_,_,_,_,_,_,_), CompleteV(_,_,_,_,_), CompleteItems(_,_,_,_,_,_,_)
 
 ExecSel(E, ot, selsets, src, path) ==
   ExecGroups(E, ot, CollectSets(E, ot, selsets), 1, src, path,
-             [fields |-> <<>>, errs |-> <<>>, opt |-> <<>>, calls |-> <<>>])
+             [fields |-> <<>>, errs |-> <<>>, opt |-> <<>>, calls |-> <<>>, tcalls |-> <<>>, esc |-> <<>>,
+              all |-> <<>>, dead |-> FALSE])
 
 ExecField(E, ot, g, src, path) ==
   LET f1 == g.occs[1]
@@ -171,64 +187,91 @@ ExecField(E, ot, g, src, path) ==
   IF fn = "__typename" THEN [R0 EXCEPT !.val = StrV(ot)]
   ELSE
     LET fd == FieldDef(E.S, ot, fn)
-        oc == Outcome(E, ot, fn)
-        call == [p |-> path, pt |-> ot, f |-> fn, src |-> src.tag,
+        oc == Outcome(E, ot, fn, src.tag)
+        call == [p |-> path, pt |-> ot, f |-> fn, src |-> src.tag, rt |-> fd.type,
                  args |-> ArgValues(E.S, fd.args, f1.args, E.V),
                  occ |-> [i \in 1..Len(g.occs) |-> g.occs[i].id]]
         ctag == src.tag \o "." \o fn
         r == CASE oc.k \in {"err", "valerr", "panic", "panics", "thunkerr", "badthunk"} ->
                     Fail(path, IsNN(fd.type))
-               [] oc.k \in {"nil", "typednil"} -> CompleteV(E, fd.type, g, NullV, path)
-               [] oc.k = "nan" -> CompleteV(E, fd.type, g, NullV, path)
+               [] oc.k \in {"nil", "typednil", "nan"} -> CompleteV(E, fd.type, g, NullV, path)
                [] oc.k = "wrong" -> CompleteV(E, fd.type, g, [k |-> "wrong"], path)
+               [] oc.k = "big" -> CompleteV(E, fd.type, g, IntV("over32"), path)
+               [] oc.k = "badenum" -> CompleteV(E, fd.type, g, [k |-> "eint", v |-> "nope"], path)
+               [] oc.k = "nilitem" ->
+                    LET nv == ValueFor(E.S, fd.type, ctag, fn, oc)
+                    IN CompleteV(E, fd.type, g,
+                                 IF nv.k = "list" /\ Len(nv.items) >= 2
+                                 THEN [nv EXCEPT !.items[2] = NullV] ELSE nv, path)
                [] OTHER -> CompleteV(E, fd.type, g, ValueFor(E.S, fd.type, ctag, fn, oc), path)
-    IN [r EXCEPT !.calls = <<call>> \o @]
+        deferred == oc.k \in {"thunk", "thunkerr", "badthunk"}
+    IN [r EXCEPT !.calls = <<call>> \o @,
+                 !.esc = IF deferred /\ IsNN(fd.type) /\ r.bub THEN Append(@, r.errs[Len(r.errs)]) ELSE @]
 
 ExecGroups(E, ot, groups, i, src, path, acc) ==
   IF i > Len(groups)
-  THEN [R0 EXCEPT !.val = ObjV(acc.fields), !.errs = acc.errs, !.opt = acc.opt, !.calls = acc.calls]
+  THEN IF acc.dead
+       THEN [R0 EXCEPT !.errs = acc.errs, !.opt = acc.opt, !.calls = acc.calls, !.tcalls = acc.tcalls,
+                       !.esc = acc.esc, !.all = acc.all, !.errd = TRUE]
+       ELSE [R0 EXCEPT !.val = ObjV(acc.fields), !.errs = acc.errs, !.opt = acc.opt, !.calls = acc.calls,
+                       !.tcalls = acc.tcalls, !.esc = acc.esc, !.all = acc.all]
   ELSE
     LET g == groups[i] IN
     IF ~g.inc \/ ~HasField(E.S, ot, g.occs[1].name)
     THEN ExecGroups(E, ot, groups, i + 1, src, path, acc)
     ELSE
       LET r == ExecField(E, ot, g, src, Append(path, g.key))
-          acc2 == [fields |-> Append(acc.fields, [n |-> g.key, v |-> r.val]),
-                   errs |-> acc.errs \o r.errs, opt |-> acc.opt \o r.opt,
-                   calls |-> acc.calls \o r.calls]
-      IN IF r.bub
-         THEN [R0 EXCEPT !.errs = acc2.errs, !.opt = acc2.opt, !.calls = acc2.calls, !.errd = TRUE]
-         ELSE ExecGroups(E, ot, groups, i + 1, src, path, acc2)
+      IN IF acc.dead
+         THEN \* the object is already null: later siblings only contribute potential errors
+              ExecGroups(E, ot, groups, i + 1, src, path, [acc EXCEPT !.all = @ \o r.all])
+         ELSE
+           LET acc2 == [acc EXCEPT !.fields = Append(@, [n |-> g.key, v |-> r.val]),
+                                   !.errs = @ \o r.errs, !.opt = @ \o r.opt, !.calls = @ \o r.calls,
+                                   !.tcalls = @ \o r.tcalls, !.esc = @ \o r.esc, !.all = @ \o r.all]
+           IN ExecGroups(E, ot, groups, i + 1, src, path, IF r.bub THEN [acc2 EXCEPT !.dead = TRUE] ELSE acc2)
 
 CompleteItems(E, t, g, items, i, path, acc) ==
   IF i > Len(items)
-  THEN [R0 EXCEPT !.val = ListV(acc.items), !.errs = acc.errs, !.opt = acc.opt, !.calls = acc.calls]
+  THEN IF acc.dead
+       THEN [R0 EXCEPT !.errs = acc.errs, !.opt = acc.opt, !.calls = acc.calls, !.tcalls = acc.tcalls,
+                       !.esc = acc.esc, !.all = acc.all, !.errd = TRUE]
+       ELSE [R0 EXCEPT !.val = ListV(acc.items), !.errs = acc.errs, !.opt = acc.opt, !.calls = acc.calls,
+                       !.tcalls = acc.tcalls, !.esc = acc.esc, !.all = acc.all]
   ELSE
     LET r == CompleteV(E, t, g, items[i], Append(path, IdxKey(i - 1)))
-        acc2 == [items |-> Append(acc.items, r.val), errs |-> acc.errs \o r.errs,
-                 opt |-> acc.opt \o r.opt, calls |-> acc.calls \o r.calls]
-    IN IF r.bub
-       THEN [R0 EXCEPT !.errs = acc2.errs, !.opt = acc2.opt, !.calls = acc2.calls, !.errd = TRUE]
-       ELSE CompleteItems(E, t, g, items, i + 1, path, acc2)
+    IN IF acc.dead
+       THEN CompleteItems(E, t, g, items, i + 1, path, [acc EXCEPT !.all = @ \o r.all])
+       ELSE
+         LET acc2 == [acc EXCEPT !.items = Append(@, r.val), !.errs = @ \o r.errs, !.opt = @ \o r.opt,
+                                 !.calls = @ \o r.calls, !.tcalls = @ \o r.tcalls, !.esc = @ \o r.esc,
+                                 !.all = @ \o r.all]
+         IN CompleteItems(E, t, g, items, i + 1, path, IF r.bub THEN [acc2 EXCEPT !.dead = TRUE] ELSE acc2)
 
 CompleteV(E, t, g, rv, path) ==
   IF IsNN(t) THEN
     LET r == CompleteV(E, Unwrap(t), g, rv, path) IN
     IF IsNullV(r.val)
-    THEN [r EXCEPT !.errs = IF r.errd THEN @ ELSE Append(@, path), !.errd = TRUE, !.bub = TRUE]
+    THEN [r EXCEPT !.errs = IF r.errd THEN @ ELSE Append(@, path),
+                   !.all = IF r.errd THEN @ ELSE Append(@, path), !.errd = TRUE, !.bub = TRUE]
     ELSE r
   ELSE IF IsNullV(rv) THEN R0
   ELSE IF IsListT(t) THEN
     IF rv.k # "list" THEN Fail(path, FALSE)
     ELSE CompleteItems(E, Unwrap(t), g, rv.items, 1, path,
-                       [items |-> <<>>, errs |-> <<>>, opt |-> <<>>, calls |-> <<>>])
+                       [items |-> <<>>, errs |-> <<>>, opt |-> <<>>, calls |-> <<>>, tcalls |-> <<>>, esc |-> <<>>, all |-> <<>>, dead |-> FALSE])
   ELSE LET kd == KindOf(E.S, t.n) IN
     IF IsLeafKind(kd) THEN
       LET sv == SerializeLeaf(E.S, t.n, rv)
       IN IF IsNullV(sv) THEN [R0 EXCEPT !.opt = <<path>>] ELSE [R0 EXCEPT !.val = sv]
-    ELSE IF rv.k # "src" THEN [Fail(path, FALSE) EXCEPT !.errs = <<>>, !.opt = <<path>>, !.errd = FALSE]
-    ELSE IF rv.rt \notin PossibleTypes(E.S, t.n) THEN Fail(path, FALSE)
-    ELSE ExecSel(E, rv.rt, MergedSels(g), rv, path)
+    ELSE IF IsAbstractKind(kd) THEN
+      \* the type resolver is consulted with the value; it must name a possible type
+      LET tc == <<[p |-> StripIdx(path), v |-> IF rv.k = "src" THEN rv.tag ELSE "?"]>> IN
+      IF rv.k # "src" \/ rv.rt \notin PossibleTypes(E.S, t.n)
+      THEN [Fail(path, FALSE) EXCEPT !.tcalls = tc]
+      ELSE LET r == ExecSel(E, rv.rt, MergedSels(g), rv, path)
+           IN [r EXCEPT !.tcalls = tc \o @]
+    ELSE \* object type: any value is a source; a value of a foreign Go kind is tagged "?"
+      ExecSel(E, t.n, MergedSels(g), IF rv.k = "src" THEN rv ELSE [k |-> "src", tag |-> "?", rt |-> t.n], path)
 
 \* ------------------------------------------------------------- requests
 \* D = [ops |-> <<[kind, name, vdefs, sel]>>, frags |-> <<[name, on, sel]>>]
@@ -246,12 +289,87 @@ ExecuteOp(S, D, op, inputs, outs, dev) ==
   LET vv == VarValues(S, op.vdefs, inputs) IN
   IF vv.verdict = "reject"
   THEN [data |-> [k |-> "absent"], reqerr |-> TRUE, unspec |-> FALSE,
-        errs |-> <<>>, opt |-> <<>>, calls |-> <<>>]
+        errs |-> <<>>, opt |-> <<>>, calls |-> <<>>, tcalls |-> <<>>, esc |-> <<>>, all |-> <<>>, vvals |-> <<>>]
   ELSE
     LET E == [S |-> S, frags |-> FragMap(D), V |-> vv.vals, outs |-> outs, dev |-> dev]
         r == ExecSel(E, RootType(S, op.kind), <<op.sel>>, RootSrc, <<>>)
     IN [data |-> r.val, reqerr |-> FALSE, unspec |-> (vv.verdict = "unspec"),
-        errs |-> r.errs, opt |-> r.opt, calls |-> r.calls]
+        errs |-> r.errs, opt |-> r.opt, calls |-> r.calls, tcalls |-> r.tcalls, esc |-> r.esc,
+        all |-> r.all,
+        vvals |-> LET ns == SetToSeq(DOMAIN vv.vals)
+                  IN [i \in 1..Len(ns) |-> [n |-> ns[i], v |-> vv.vals[ns[i]]]]]
+
+\* ------------------------------------- well-formedness of a response (C04)
+\* Independent of the executor above: it looks only at schema, document and
+\* response.  Inclusion is ignored (StaticGroups collects every occurrence),
+\* so it states "only selected keys", not "exactly the included ones".
+AllInc(E) == [E EXCEPT !.dev = {"D_C01_plan_time_directives"},
+                       !.V = [n \in DOMAIN E.V |-> E.V[n]]]
+
+RECURSIVE AllFields(_,_,_,_)
+\* every field occurrence reachable in sels for an object of type ot, directives ignored
+AllFields(E, ot, sels, seen) ==
+  IF sels = <<>> THEN <<>>
+  ELSE LET s == Head(sels) IN
+    (CASE s.k = "field" -> <<s>>
+       [] s.k = "inline" -> IF TypeApplies(E.S, s.on, ot) THEN AllFields(E, ot, s.sel, seen) ELSE <<>>
+       [] s.k = "spread" ->
+            IF s.name \in seen \/ s.name \notin DOMAIN E.frags THEN <<>>
+            ELSE IF TypeApplies(E.S, E.frags[s.name].on, ot)
+                 THEN AllFields(E, ot, E.frags[s.name].sel, seen \cup {s.name}) ELSE <<>>)
+    \o AllFields(E, ot, Tail(sels), seen)
+
+LegalLeaf(S, tn, v) ==
+  IF KindOf(S, tn) = "ENUM" THEN v.k = "str" /\ EnumHas(S, tn, v.v)
+  ELSE CASE tn = "Int" -> v.k = "int" /\ InInt32(v.v)
+         [] tn = "Float" -> v.k = "float"
+         [] tn = "Boolean" -> v.k = "bool"
+         [] OTHER -> v.k = "str"
+
+RECURSIVE WFVal(_,_,_,_), WFObj(_,_,_,_)
+WFObj(E, ot, selsets, v) ==
+  /\ v.k = "obj"
+  /\ LET fs == AllFields(E, ot, SeqConcat(selsets), {}) IN
+     \A i \in 1..Len(v.fields) :
+        /\ \A j \in 1..Len(v.fields) : v.fields[i].n = v.fields[j].n => i = j
+        /\ \E j \in 1..Len(fs) :
+             /\ RespKey(fs[j]) = v.fields[i].n
+             /\ HasField(E.S, ot, fs[j].name)
+             /\ WFVal(E, FieldDef(E.S, ot, fs[j].name).type,
+                      [k \in { m \in 1..Len(fs) : RespKey(fs[m]) = v.fields[i].n } |-> fs[k].sel],
+                      v.fields[i].v)
+
+\* subs: function (any finite index set) -> selection sets of the occurrences of this key
+WFVal(E, t, subs, v) ==
+  IF IsNN(t) THEN ~IsNullV(v) /\ WFVal(E, Unwrap(t), subs, v)
+  ELSE IF IsNullV(v) THEN TRUE
+  ELSE IF IsListT(t) THEN v.k = "list" /\ \A i \in 1..Len(v.items) : WFVal(E, Unwrap(t), subs, v.items[i])
+  ELSE LET kd == KindOf(E.S, t.n)
+           selsets == LET ks == SetToSeq(DOMAIN subs) IN [i \in 1..Len(ks) |-> subs[ks[i]]]
+       IN IF IsLeafKind(kd) THEN LegalLeaf(E.S, t.n, v)
+          ELSE \E rt \in PossibleTypes(E.S, t.n) : WFObj(E, rt, selsets, v)
+
+RECURSIVE AtPath(_,_)
+\* the value at path p, or [k |-> "none"] when the path leaves the tree
+AtPath(v, p) ==
+  IF p = <<>> THEN v
+  ELSE IF v.k = "obj" THEN
+         (IF \E i \in 1..Len(v.fields) : v.fields[i].n = p[1]
+          THEN AtPath(v.fields[CHOOSE i \in 1..Len(v.fields) : v.fields[i].n = p[1]].v, Tail(p))
+          ELSE [k |-> "none"])
+  ELSE IF v.k = "list" THEN
+         (IF \E i \in 1..Len(v.items) : IdxKey(i - 1) = p[1]
+          THEN AtPath(v.items[CHOOSE i \in 1..Len(v.items) : IdxKey(i - 1) = p[1]], Tail(p))
+          ELSE [k |-> "none"])
+  ELSE [k |-> "none"]
+
+NullAtOrAbove(data, p) == \E n \in 0..Len(p) : IsNullV(AtPath(data, SubSeq(p, 1, n)))
+
+\* C04's predicate over a response r = [data, errs, ...] of operation op
+WellFormed(E, op, r) ==
+  /\ IsNullV(r.data) \/ WFObj(E, RootType(E.S, op.kind), <<op.sel>>, r.data)
+  /\ \A i \in 1..Len(r.errs) : NullAtOrAbove(r.data, r.errs[i])
+  /\ IsNullV(r.data) => Len(r.errs) > 0
 
 \* ---------------------------------------------- theorems about the oracle
 \* Values reachable in a response
